@@ -35,6 +35,26 @@ class NodeNotFoundError(Exception):
             % key)
 
 
+class CircularDependencyError(Exception):
+    """The dependencies between nodes cannot be satisfied.
+
+    This is raised when nodes depend on each other in a cycle, meaning that
+    there is no order in which every node comes after its dependencies.
+    """
+
+    def __init__(self, key):
+        """Initialize the error.
+
+        Args:
+            key (unicode):
+                The key of a node whose dependencies cannot be satisfied.
+        """
+        super(CircularDependencyError, self).__init__(
+            'The dependencies of graph node "%s" cannot be satisfied. There '
+            'is a circular dependency.'
+            % key)
+
+
 class Node(object):
     """A node in a graph.
 
@@ -268,6 +288,10 @@ class DependencyGraph(object):
         Returns:
             list of Node:
             The list of ndoes, in dependency order.
+
+        Raises:
+            CircularDependencyError:
+                The dependencies form a cycle, so no valid order exists.
         """
         assert self._finalized
 
@@ -319,6 +343,23 @@ class DependencyGraph(object):
                                         reverse=True)
 
                         processed.add(node)
+
+        # Every node must be in the result, after all of its dependencies.
+        # If that's not the case, the dependencies form a cycle and can't
+        # be satisfied.
+        positions = dict(
+            (node, i)
+            for i, node in enumerate(result)
+        )
+
+        for node in sorted(six.itervalues(self._nodes),
+                           key=lambda node: node.insert_index):
+            node_pos = positions.get(node)
+
+            if (node_pos is None or
+                any(positions.get(dep, node_pos) >= node_pos
+                    for dep in node.dependencies)):
+                raise CircularDependencyError(node.key)
 
         return result
 
